@@ -27,8 +27,15 @@ not in place) preserves it; `library_ops_meet_contract` instantiates them for ev
 (`Core/CrossMut.lean`), C10 (`Core/RealOps.lean`) and C11 (`Core/GpTree.lean`); `varAnd_library_ops` /
 `varOr_library_ops` are the composed statements: all clauses, for every population, every decision tape, every
 library crossover and mutation (plain or decorated) and every operator tape, with no hypothesis on the operators.
+
+Last section: operators decorated with `tools.History().decorator` (model `Core/History.lean`).  `history_decorator_meets_contract`
+(the decorator preserves `OpContract`), `varAnd_history_ops` / `varOr_history_ops` (all clauses with History-decorated library
+operators), what `History.update` builds (`history_entries_fresh`, `history_index_monotone`, `genealogy_tree_parents`,
+`history_parents_below`) and `getGenealogy` (`getGenealogy_submap`, `getGenealogy_terminates`, `getGenealogy_closed`,
+`getGenealogy_cyclic_never_returns`).
 -/
 import DeapModel.Lemmas.C02Ops
+import DeapModel.Lemmas.C02History
 
 namespace C02
 open Variation
@@ -82,10 +89,10 @@ theorem pureOps_contract : OpContract pureOps where
 /-- Three individuals: evaluated, unevaluated, evaluated (a mixed population). -/
 def demoHeap : Heap := fun o =>
   match o with
-  | 0 => ⟨[1, 2, 3], some [10]⟩
-  | 1 => ⟨[4, 5, 6], none⟩
-  | 2 => ⟨[7, 8, 9], some [30]⟩
-  | _ => ⟨[], none⟩
+  | 0 => ⟨[1, 2, 3], some [10], none⟩
+  | 1 => ⟨[4, 5, 6], none, none⟩
+  | 2 => ⟨[7, 8, 9], some [30], none⟩
+  | _ => ⟨[], none, none⟩
 
 def demoSt : St := { heap := demoHeap, next := 3 }
 
@@ -98,11 +105,11 @@ def demoOr : Option (Res Unit) :=
 example : (∀ p ∈ [0, 1, 2], p < demoSt.next) := by decide
 example : demoAnd.map (·.off) = some [3, 4, 5] := by decide
 example : demoAnd.map (fun r => [3, 4, 5].map r.st.heap) =
-    some [⟨[1, 5, 6], none⟩, ⟨[4, 2, 3], none⟩, ⟨[7, 8, 9], some [30]⟩] := by decide
+    some [⟨[1, 5, 6], none, none⟩, ⟨[4, 2, 3], none, none⟩, ⟨[7, 8, 9], some [30], none⟩] := by decide
 example : demoAnd.map (fun r => [0, 1, 2].map r.st.heap) = some ([0, 1, 2].map demoHeap) := by decide
 example : demoOr.map (·.off) = some [3, 5, 6] := by decide
 example : demoOr.map (fun r => [3, 5, 6].map r.st.heap) =
-    some [⟨[1, 8, 9], none⟩, ⟨[-4, -5, -6], none⟩, ⟨[7, 8, 9], some [30]⟩] := by decide
+    some [⟨[1, 8, 9], none, none⟩, ⟨[-4, -5, -6], none, none⟩, ⟨[7, 8, 9], some [30], none⟩] := by decide
 example : demoOr.map (fun r => [0, 1, 2].map r.st.heap) = some ([0, 1, 2].map demoHeap) := by decide
 /-- the same object repeated in the population: still three distinct fresh offspring -/
 example : (varAnd demoOps () demoSt [0, 0, 0] [false] [false, true, false]).map (·.off) = some [3, 4, 5] := by
@@ -111,10 +118,10 @@ example : (varAnd demoOps () demoSt [0, 0, 0] [false] [false, true, false]).map 
 mutating 7), and it is their fitness that is deleted although they were copies of evaluated parents -/
 example : (varAnd pureOps () demoSt [0, 2, 2] [true] [false, true, false]).map
     (fun r => (r.off, r.off.map r.st.heap)) =
-    some ([6, 8, 5], [⟨[1, 8, 9], none⟩, ⟨[-7, -2, -3], none⟩, ⟨[7, 8, 9], some [30]⟩]) := by decide
+    some ([6, 8, 5], [⟨[1, 8, 9], none, none⟩, ⟨[-7, -2, -3], none, none⟩, ⟨[7, 8, 9], some [30], none⟩]) := by decide
 example : (varOr pureOps () demoSt [0, 1, 2] 2 [Choice.cx 0 2, Choice.mutn 2]).map
     (fun r => (r.off, r.off.map r.st.heap)) =
-    some ([5, 8], [⟨[1, 8, 9], none⟩, ⟨[-7, -8, -9], none⟩]) := by decide
+    some ([5, 8], [⟨[1, 8, 9], none, none⟩, ⟨[-7, -8, -9], none, none⟩]) := by decide
 
 /-! ## varAnd -/
 
@@ -525,7 +532,7 @@ example : [true].length = [0, 1, 2].length / 2 ∧ [false, true, false].length =
 /-- the composed model computes: pair (0, 1) crossed at 1, offspring 1 then inverted over [0, 2), input 2 copied -/
 example : (varAnd (demoLib.ops demoViews) demoTape demoSt [0, 1, 2] [true] [false, true, false]).map
     (fun r => (r.off, r.off.map r.st.heap, r.tape.ok, r.tape.draws.length)) =
-    some ([3, 4, 5], [⟨[1, 5, 6], none⟩, ⟨[2, 4, 3], none⟩, ⟨[7, 8, 9], some [30]⟩], true, 0) := by decide
+    some ([3, 4, 5], [⟨[1, 5, 6], none, none⟩, ⟨[2, 4, 3], none, none⟩, ⟨[7, 8, 9], some [30], none⟩], true, 0) := by decide
 
 /-- All clauses of the property for `varOr` with the library's own operators (same quantification):
 (1) no pre-existing object is modified, (2) exactly `lambda_` offspring, (3) all allocated during the call, no
@@ -569,7 +576,7 @@ example : (∀ q ∈ [0, 1, 2], q < demoSt.next) ∧
 still carries the valid fitness `[30]` until `varOr` deletes the fitness of what was returned -/
 example : (varOr (demoLibLimit.ops demoViews) { draws := [.int 3, .int 0, .int 1] } demoSt [0, 1, 2] 1
       [Choice.cx 0 2]).map (fun r => (r.off, r.off.map r.st.heap, r.st.next, r.tape.ok)) =
-    some ([7], [⟨[7, 8, 9], none⟩], 8, true) := by decide
+    some ([7], [⟨[7, 8, 9], none, none⟩], 8, true) := by decide
 
 /-! ## Undecorated library operators: the offspring are the clones themselves -/
 
@@ -604,5 +611,298 @@ example : demoLib.mateLimit = none ∧ demoLib.mutLimit = none ∧
     intro c hc
     simp only [List.mem_cons, List.not_mem_nil, or_false] at hc
     rcases hc with rfl | rfl | rfl <;> simp [Choice.inRange])⟩
+
+/-! ## Operators decorated with `tools.History().decorator` -/
+
+section HistoryOps
+open History
+
+/-- `toolbox.decorate("mate", history.decorator)` and / or `toolbox.decorate("mutate", history.decorator)` around ANY operator pair
+meeting the contract meets it again: the decorator returns what the operator returned, stamps `history_index` on exactly those
+objects and allocates the deep copies it stores — it writes no other object. -/
+theorem history_decorator_meets_contract (hc : OpContract ops) (dm du : Bool) : OpContract (histOps dm du ops) :=
+  histOps_contract hc dm du
+
+example : OpContract demoOps := demoOps_contract
+
+/-- All clauses of the property for `varAnd` with History-decorated library operators (crossover, mutation or both decorated,
+each optionally decorated with `gp.staticLimit` underneath), for every history the decorator starts from — no operator hypothesis:
+(1) no pre-existing object is modified — in particular no parent receives a `history_index` —, (2) `len(population)` offspring,
+(3) all allocated during the call, no input, pairwise distinct, (4) crossover / mutation ⇒ invalid fitness, (5) valid fitness ⇒
+the offspring equals the input at its position in every field (genotype, fitness, `history_index`). -/
+theorem varAnd_history_ops (v : Views) (p : Lib) (dm du : Bool) {t : LTape × Hist} {s : St} {pop : List Nat}
+    {mateD mutD : List Bool} {r : Res (LTape × Hist)} (hpop : ∀ q ∈ pop, q < s.next)
+    (h : varAnd (histOps dm du (p.ops v)) t s pop mateD mutD = some r) :
+    (∀ o, o < s.next → r.st.heap o = s.heap o) ∧
+    r.off.length = pop.length ∧
+    (∀ o ∈ r.off, s.next ≤ o ∧ o < r.st.next ∧ o ∉ pop) ∧ r.off.Nodup ∧
+    (∀ (k o : Nat), r.off[k]? = some o → (wasMated mateD pop.length k = true ∨ mutD[k]? = some true) →
+      (r.st.heap o).fit = none) ∧
+    (∀ (k o : Nat) (f : List Int), r.off[k]? = some o → (r.st.heap o).fit = some f →
+      ∃ q, pop[k]? = some q ∧ r.st.heap o = s.heap q ∧ r.st.heap o = r.st.heap q) := by
+  have hc := history_decorator_meets_contract (library_ops_meet_contract v p) dm du
+  exact ⟨varAnd_parents_unchanged hc h, varAnd_count hc h,
+    fun o ho => ⟨(varAnd_fresh hc h o ho).1, (varAnd_fresh hc h o ho).2, varAnd_not_input hc hpop h o ho⟩,
+    varAnd_distinct hc h,
+    fun k o ho ht => varAnd_touched_invalid hc hpop h k o ho ht,
+    fun k o f ho hf => varAnd_valid_is_parent_copy hc hpop h k o f ho hf⟩
+
+/-- … and the call always returns. -/
+theorem varAnd_history_ops_total (v : Views) (p : Lib) (dm du : Bool) (t : LTape × Hist) (s : St) (pop : List Nat)
+    (mateD mutD : List Bool) (hm : mateD.length = pop.length / 2) (hu : mutD.length = pop.length) :
+    (varAnd (histOps dm du (p.ops v)) t s pop mateD mutD).isSome = true :=
+  varAnd_isSome t s pop mateD mutD hm hu (history_decorator_meets_contract (library_ops_meet_contract v p) dm du)
+
+/-- one-point crossover of the clones of 0 and 1, inversion of the clone of 1, both decorated: the clones (3, 4, then 4 again) are
+stamped 1, 2, 3; the history holds the copies 6, 7, 8; `genealogy_tree = {1: (), 2: (), 3: (2,)}` -/
+example : (∀ q ∈ [0, 1, 2], q < demoSt.next) ∧
+    (varAnd (histOps true true (demoLib.ops demoViews)) (demoTape, {}) demoSt [0, 1, 2] [true] [false, true, false]).map
+      (fun r => (r.off, r.off.map (fun o => (r.st.heap o).hidx), r.tape.2.index)) =
+    some ([3, 4, 5], [some 1, some 3, none], 3) ∧
+    (varAnd (histOps true true (demoLib.ops demoViews)) (demoTape, {}) demoSt [0, 1, 2] [true] [false, true, false]).map
+      (fun r => (r.tape.2.tree, r.tape.2.hist)) = some ([(1, []), (2, []), (3, [2])], [(1, 6), (2, 7), (3, 8)]) :=
+  ⟨by decide, by decide, by decide⟩
+
+example : [true].length = [0, 1, 2].length / 2 ∧ [false, true, false].length = [0, 1, 2].length := by decide
+
+/-- All clauses of the property for `varOr` with History-decorated library operators (same quantification). -/
+theorem varOr_history_ops (v : Views) (p : Lib) (dm du : Bool) {t : LTape × Hist} {s : St} {pop : List Nat} {lam : Nat}
+    {choices : List Choice} {r : Res (LTape × Hist)} (hpop : ∀ q ∈ pop, q < s.next)
+    (h : varOr (histOps dm du (p.ops v)) t s pop lam choices = some r) :
+    (∀ o, o < s.next → r.st.heap o = s.heap o) ∧
+    r.off.length = lam ∧
+    (∀ o ∈ r.off, s.next ≤ o ∧ o < r.st.next ∧ o ∉ pop) ∧ r.off.Nodup ∧
+    (∀ (k o : Nat), r.off[k]? = some o →
+      ((∃ i j, choices[k]? = some (Choice.cx i j)) ∨ (∃ i, choices[k]? = some (Choice.mutn i))) →
+      (r.st.heap o).fit = none) ∧
+    (∀ (k o : Nat) (f : List Int), r.off[k]? = some o → (r.st.heap o).fit = some f →
+      ∃ q ∈ pop, r.st.heap o = s.heap q ∧ r.st.heap o = r.st.heap q) := by
+  have hc := history_decorator_meets_contract (library_ops_meet_contract v p) dm du
+  exact ⟨varOr_parents_unchanged hc hpop h, varOr_count hc hpop h,
+    fun o ho => ⟨(varOr_fresh hc hpop h o ho).1, (varOr_fresh hc hpop h o ho).2, varOr_not_input hc hpop h o ho⟩,
+    varOr_distinct hc hpop h,
+    fun k o ho ht => varOr_touched_invalid hc hpop h k o ho ht,
+    fun k o f ho hf => varOr_valid_is_parent_copy hc hpop h k o f ho hf⟩
+
+example : (∀ q ∈ [0, 1, 2], q < demoSt.next) ∧
+    (varOr (histOps true false (demoLib.ops demoViews)) (demoTape, {}) demoSt [0, 1, 2] 2
+      [Choice.cx 0 2, Choice.rep 1]).map (fun r => (r.off, r.tape.2.index, r.tape.2.tree)) =
+    some ([3, 7], 2, [(1, []), (2, [])]) := ⟨by decide, by decide⟩
+
+/-! ### what `History.update` builds -/
+
+/-- The objects `update` stores in `genealogy_history` are NEW objects: under the `i`-th new index lies the oid `n + i`, allocated
+by this call (so it is no live individual — they are all `< n` —, no earlier entry, and the new entries are pairwise different
+objects); it is a copy of the `i`-th individual as stamped; and no object that existed before other than the individuals themselves
+— in particular no earlier history entry — is written.  (`n` = the next free oid; the keys of a history are `1..index`: `WF`.) -/
+theorem history_entries_fresh (H : Hist) (h : Heap) (n : Nat) (inds : List Nat) (hwf : WF H) (hlt : ∀ o ∈ inds, o < n) :
+    (update H h n inds).hist.hist =
+      H.hist ++ List.zip (List.range' (H.index + 1) inds.length) (List.range' n inds.length) ∧
+    (update H h n inds).next = n + inds.length ∧
+    (∀ (i o : Nat), inds[i]? = some o → n + i ∉ inds ∧
+      (update H h n inds).heap (n + i) = { h o with hidx := some (H.index + i + 1) }) ∧
+    (∀ o, o < n → o ∉ inds → (update H h n inds).heap o = h o) ∧
+    (∀ o, o < n → ((update H h n inds).heap o).genome = (h o).genome ∧ ((update H h n inds).heap o).fit = (h o).fit) :=
+  ⟨(updateLoop_dicts _ H h n inds hwf).2.2, updateLoop_next _ H h n inds,
+   fun i o hi => ⟨fun hm => by have := hlt _ hm; omega, updateLoop_copy _ H h n inds hlt i o hi⟩,
+   fun o ho hni => updateLoop_frame _ H h n inds o hni ho,
+   fun o ho => updateLoop_genome_fit _ H h n inds o ho⟩
+
+/-- a population of two, the second carrying an index already -/
+def histHeap : Heap := fun o =>
+  match o with
+  | 0 => ⟨[1, 2, 3], some [10], none⟩
+  | 1 => ⟨[4, 5, 6], none, some 7⟩
+  | _ => ⟨[], none, none⟩
+
+example : WF {} ∧ (∀ o ∈ [0, 1], o < 2) := ⟨WF_init, by decide⟩
+example : ((update {} histHeap 2 [0, 1]).hist.tree, (update {} histHeap 2 [0, 1]).hist.hist,
+      [0, 1, 2, 3].map (fun o => ((update {} histHeap 2 [0, 1]).heap o).hidx)) =
+    ([(1, []), (2, [])], [(1, 2), (2, 3)], [some 1, some 2, some 1, some 2]) := by decide
+
+/-- Indices are handed out `index+1, index+2, …` in call order: the counter advances by the number of individuals, both dicts
+get exactly these keys appended in this order (so their keys stay `1..index`), and — the individuals being different objects — the
+`i`-th one carries `history_index = index + i + 1` afterwards. -/
+theorem history_index_monotone (H : Hist) (h : Heap) (n : Nat) (inds : List Nat) (hwf : WF H) :
+    WF (update H h n inds).hist ∧
+    (update H h n inds).hist.index = H.index + inds.length ∧
+    dkeys (update H h n inds).hist.tree = dkeys H.tree ++ List.range' (H.index + 1) inds.length ∧
+    ((∀ o ∈ inds, o < n) → inds.Nodup → ∀ (i o : Nat), inds[i]? = some o →
+      ((update H h n inds).heap o).hidx = some (H.index + i + 1)) := by
+  refine ⟨(updateLoop_dicts _ H h n inds hwf).1, updateLoop_index _ H h n inds, ?_, fun hlt hnd i o hi => ?_⟩
+  · show dkeys (updateLoop _ H h n inds).hist.tree = _
+    rw [(updateLoop_dicts _ H h n inds hwf).2.1]
+    simp [dkeys, List.map_append, List.map_map, Function.comp_def]
+  · show ((updateLoop _ H h n inds).heap o).hidx = _
+    rw [updateLoop_live _ H h n inds hlt hnd i o hi]
+
+example : WF {} ∧ (∀ o ∈ [0, 1], o < 2) ∧ [0, 1].Nodup := ⟨WF_init, by decide, by decide⟩
+
+/-- `genealogy_tree[i]` of every index handed out by this call is the tuple of the `history_index` values the individuals carried
+BEFORE the call (the empty tuple as soon as one of them carried none), and the entries of all earlier indices are unchanged. -/
+theorem genealogy_tree_parents (H : Hist) (h : Heap) (n : Nat) (inds : List Nat) (hwf : WF H) :
+    (∀ i, i < inds.length → dget (update H h n inds).hist.tree (H.index + 1 + i) = some (parentIndices h inds)) ∧
+    (∀ k, k ≤ H.index → dget (update H h n inds).hist.tree k = dget H.tree k) ∧
+    ((∀ o ∈ inds, ((h o).hidx).isSome = true) → parentIndices h inds = inds.filterMap (fun o => (h o).hidx)) := by
+  have ht : (update H h n inds).hist.tree = _ := (updateLoop_dicts _ H h n inds hwf).2.1
+  refine ⟨fun i hi => ?_, fun k hk => ?_, fun hall => ?_⟩
+  · rw [ht, dget_append_right _ _ _ (by rw [hwf.1]; simp [List.mem_range']; omega)]
+    generalize parentIndices h inds = ps
+    generalize H.index + 1 = b
+    clear ht hwf
+    induction inds generalizing b i with
+    | nil => simp at hi
+    | cons x rest ih =>
+      cases i with
+      | zero => simp [List.range'_succ, dget]
+      | succ j =>
+        have : b + (j + 1) = b + 1 + j := by omega
+        simp only [List.length_cons, List.range'_succ, List.map_cons, dget, this]
+        rw [if_neg (by omega)]
+        exact ih j (by simpa using hi) (b + 1)
+  · by_cases hk0 : k ∈ dkeys H.tree
+    · rw [ht, dget_append_left _ _ _ hk0]
+    · have h1 : dget H.tree k = none := by
+        cases hd : dget H.tree k with
+        | none => rfl
+        | some x => exact absurd ((dget_isSome_iff _ _).mp (by rw [hd]; rfl)) hk0
+      rw [ht, dget_append_right _ _ _ hk0, h1]
+      cases hd : dget ((List.range' (H.index + 1) inds.length).map (fun k => (k, parentIndices h inds))) k with
+      | none => rfl
+      | some x =>
+        have := (dget_isSome_iff _ _).mp (by rw [hd]; rfl)
+        simp [dkeys, List.mem_range'] at this
+        omega
+  · unfold parentIndices
+    clear ht hwf
+    induction inds with
+    | nil => rfl
+    | cons x rest ih =>
+      have hx := hall x (by simp)
+      have hr := ih (fun o ho => hall o (List.mem_cons_of_mem _ ho))
+      cases hxx : (h x).hidx with
+      | none => rw [hxx] at hx; cases hx
+      | some a =>
+        cases hm : List.mapM (fun o => (h o).hidx) rest with
+        | none =>
+          exfalso
+          clear hr ih
+          induction rest with
+          | nil => simp at hm
+          | cons y ys ih2 =>
+            have hy := hall y (by simp)
+            cases hyy : (h y).hidx with
+            | none => rw [hyy] at hy; cases hy
+            | some b =>
+              cases hm2 : List.mapM (fun o => (h o).hidx) ys with
+              | none => exact ih2 (fun o ho => hall o (by simp at ho ⊢; rcases ho with e | e; exact Or.inl e; exact Or.inr (Or.inr e))) hm2
+              | some l => simp [List.mapM_cons, hyy, hm2] at hm
+        | some l =>
+          rw [hm] at hr
+          simp [List.mapM_cons, hxx, hm] at hr ⊢
+          exact hr
+
+example : WF {} ∧ parentIndices histHeap [0, 1] = [] ∧ parentIndices histHeap [1, 1] = [7, 7] := ⟨WF_init, by decide, by decide⟩
+
+/-- As long as every index an individual carries was handed out by THIS history (it is `≤ genealogy_index`), every parent index
+in `genealogy_tree` is smaller than its child's: the tree has no cycle. -/
+theorem history_parents_below (H : Hist) (h : Heap) (n : Nat) (inds : List Nat) (hwf : WF H) (hb : Below H.tree)
+    (hown : ∀ o ∈ inds, ∀ k, (h o).hidx = some k → k ≤ H.index) : Below (update H h n inds).hist.tree := by
+  intro k ps hk p hp
+  obtain ⟨g1, g2, g3⟩ := genealogy_tree_parents H h n inds hwf
+  clear g3
+  by_cases hle : k ≤ H.index
+  · rw [g2 k hle] at hk; exact hb k ps hk p hp
+  · have hkeys := (history_index_monotone H h n inds hwf).2.2.1
+    have hmem : k ∈ dkeys (update H h n inds).hist.tree := (dget_isSome_iff _ _).mp (by rw [hk]; rfl)
+    rw [hkeys, hwf.1] at hmem
+    simp only [List.mem_append, List.mem_range'] at hmem
+    have hi : ∃ i, i < inds.length ∧ k = H.index + 1 + i := by
+      rcases hmem with ⟨i, hi, e⟩ | ⟨i, hi, e⟩
+      · omega
+      · exact ⟨i, hi, by omega⟩
+    obtain ⟨i, hi, e⟩ := hi
+    rw [e, g1 i hi] at hk
+    cases hk
+    obtain ⟨o, ho, e2⟩ := parentIndices_mem h inds p hp
+    have := hown o ho p e2
+    omega
+
+example : WF {} ∧ Below ({} : Hist).tree ∧ (∀ o ∈ [0], ∀ k, (histHeap o).hidx = some k → k ≤ ({} : Hist).index) :=
+  ⟨WF_init, fun k ps hk => by simp [dget] at hk, by decide⟩
+
+/-! ### `getGenealogy` -/
+
+/-- Whatever `getGenealogy` returns (any start index, any depth bound) is a sub-map of `genealogy_tree`. -/
+theorem getGenealogy_submap (H : Hist) (fuel root : Nat) (maxd : Option Nat) (g : Dict (List Nat))
+    (h : getGenealogy H fuel root maxd = some g) : ∀ k ps, dget g k = some ps → dget H.tree k = some ps := by
+  unfold getGenealogy at h
+  cases hg : genealogy H.tree maxd fuel root 0 {} with
+  | none => rw [hg] at h; cases h
+  | some s =>
+    rw [hg] at h; cases h
+    exact genealogy_sub H.tree maxd fuel root 0 {} s (fun k ps hk => by simp [dget] at hk) hg
+
+/-- a grandchild, its two parents, their common parent -/
+def demoHist : Hist := { index := 4, tree := [(1, []), (2, [1]), (3, [1]), (4, [2, 3])], hist := [(1, 10), (2, 11), (3, 12), (4, 13)] }
+
+example : getGenealogy demoHist 10 4 none = some [(4, [2, 3]), (2, [1]), (1, []), (3, [1])] ∧
+    getGenealogy demoHist 10 4 (some 2) = some [(4, [2, 3]), (2, [1]), (3, [1])] ∧
+    getGenealogy demoHist 10 4 (some 0) = some [] ∧ getGenealogy demoHist 10 9 none = some [] := by decide
+
+/-- Termination: on a tree whose parent indices are smaller than their children's (`history_parents_below`), `getGenealogy`
+returns for every start index `root` and every depth bound as soon as the interpreter's stack admits `root + 1` frames. -/
+theorem getGenealogy_terminates (H : Hist) (hb : Below H.tree) (fuel root : Nat) (maxd : Option Nat) (hf : root < fuel) :
+    (getGenealogy H fuel root maxd).isSome = true := by
+  unfold getGenealogy
+  have := genealogy_isSome H.tree maxd hb fuel root 0 {} hf
+  cases hg : genealogy H.tree maxd fuel root 0 {} with
+  | none => rw [hg] at this; cases this
+  | some s => rfl
+
+example : Below demoHist.tree := by
+  intro k ps hk p hp
+  simp only [demoHist, dget] at hk
+  repeat' split at hk
+  all_goals (first | cases hk | skip)
+  all_goals (simp at hp <;> omega)
+
+/-- Without a depth bound the result is closed under parents: it contains the start index (when the tree knows it) and, with
+every index, all its parents the tree knows — on ANY tree, whenever the call returns at all. -/
+theorem getGenealogy_closed (H : Hist) (fuel root : Nat) (g : Dict (List Nat)) (h : getGenealogy H fuel root none = some g) :
+    ((dget H.tree root).isSome = true → (dget g root).isSome = true) ∧
+    (∀ k ps, dget g k = some ps → ∀ p ∈ ps, (dget H.tree p).isSome = true → (dget g p).isSome = true) := by
+  have hsub := getGenealogy_submap H fuel root none g h
+  unfold getGenealogy at h
+  cases hg : genealogy H.tree none fuel root 0 {} with
+  | none => rw [hg] at h; cases h
+  | some s =>
+    rw [hg] at h; cases h
+    have hinit : Inv H.tree (fun _ => False) {} :=
+      ⟨fun v hv => by simp at hv, fun k hk => by simp [inG, dget] at hk⟩
+    obtain ⟨i1, _, c1⟩ := genealogy_inv H.tree fuel root 0 (fun _ => False) {} s hinit hg
+    exact ⟨c1, fun k ps hk p hp ht => i1.2 k (by unfold inG; rw [hk]; rfl) (fun f => f) ps (hsub k ps hk) p hp ht⟩
+
+example : (getGenealogy demoHist 10 4 none).isSome = true := by decide
+
+/-- With a depth bound the result need NOT be closed under the parents within the bound (the docstring says "approximate"):
+index 3 is a parent of the root 4, yet `max_depth = 2` leaves it out when it was first reached, too deep, through 2. -/
+example : getGenealogy { index := 4, tree := [(1, []), (2, [3]), (3, [1]), (4, [2, 3])], hist := [] } 10 4 (some 2) =
+    some [(4, [2, 3]), (2, [3])] := by decide
+
+/-- Finding (termination): when an individual is its own ancestor — `cyclicTree` is what two `update`s of ONE individual build
+when it came in carrying the index 2 of another `History` object (a second run, a restored checkpoint: the docstring only warns
+against MODIFYING the indices) — `getGenealogy` without a depth bound returns for no stack size: Python raises `RecursionError`. -/
+theorem getGenealogy_cyclic_never_returns (fuel : Nat) :
+    getGenealogy { index := 2, tree := cyclicTree, hist := [] } fuel 2 none = none := by
+  unfold getGenealogy
+  rw [(genealogy_cyclic none rfl fuel 0 {} (by simp) (by simp)).2]
+  rfl
+
+/-- the two updates that build `cyclicTree`: one individual (oid 1 of `histHeap`, carrying the foreign index 7 there; here 2) -/
+example : (update (update {} (fun _ => ⟨[], none, some 2⟩) 1 [0]).hist (update {} (fun _ => ⟨[], none, some 2⟩) 1 [0]).heap 2 [0]).hist.tree
+    = cyclicTree := by decide
+
+end HistoryOps
 
 end C02
